@@ -48,7 +48,7 @@ PROPS = {
                         AC + "._send_command_get_responses", DEVB + "._send_command#transport", LANC + ".send", LANC + "._read",
                         LANM + "_Packet.encode", LANM + "_Packet.decode", LANM + "_Packet.decode#interop",
                         V3 + "._encode_encrypted_request", V3 + "._process_packet#interop", V3 + ".write", V3 + ".data_received",
-                        CMD + "Response.construct", CMD + "StateResponse.__init__", AC + "._update_state", AC + ".refresh#one_state_response"],
+                        CMD + "Response.construct", CMD + "StateResponse.__init__", AC + "._update_state", AC + ".refresh#one_state_response", (AC + ".refresh", r"whole_response|noraise|call\.")],
             "level": "proof"},
     "C19": {"targets": [CLOUDM + "BaseCloud.get_token", CLOUDM + "BaseCloud._post_request", CLOUDM + "NetHomePlusCloud._parse_response",
                         CLOUDM + "NetHomePlusCloud.login", CLOUDM + "NetHomePlusCloud._Security.encrypt_password#derivation", DISCM + "Discover._get_cloud",
@@ -117,6 +117,7 @@ PROPS = {
                         AC + ".rate_select!setter", AC + ".horizontal_swing_angle!setter", AC + ".vertical_swing_angle!setter",
                         CMD + "SetPropertiesCommand.__init__", CMD + "SetPropertiesCommand.tobytes",
                         (AC + ".apply", r"c16\.|noraise|call\."), AC + ".apply#quiet_device", AC + "._apply_properties", AC + ".start_self_clean",
-                        (AC + "._update_capabilities", r"props\.|noraise"), AC + "._update_state#props", (AC + ".refresh", r"whole_response|noraise|call\.")] + GETTERS["C16"],
+                        (AC + "._update_capabilities", r"props\.|noraise"), AC + "._update_state#props", (AC + ".refresh", r"whole_response|noraise|call\."),
+                        CMD + "PropertiesResponse._parse#wf", CMD + "PropertiesResponse.__init__", CMD + "PropertiesResponse._parse"] + GETTERS["C16"],
             "level": "proof"},
 }
